@@ -327,4 +327,12 @@ ben("C18", "c18-benign-optfield-early-return", ISP, "      return attrib_value.l
 ben("C18", "c18-benign-lookahead-form", "ttconv/srt/writer.py", "end = isds[i + 1][0] if i + 1 < len(isds) else None", "end = isds[i + 1][0] if i < len(isds) - 1 else None")
 brk("C18", "c18-lookahead-off-by-one", "ttconv/srt/writer.py", "end = isds[i + 1][0] if i + 1 < len(isds) else None", "end = isds[i + 1][0] if i < len(isds) else None", "IDX-lookahead")
 
+
+
+# ---------------------------------------------------------------------------------------- RAISE-interval
+brk("C07", "c07-subms-strict-less", "ttconv/srt/writer.py", '    if end is not None and round(end, 3) <= round(begin, 3):\n', '    if end is not None and round(end, 3) < round(begin, 3):\n', "RAISE-interval")
+brk("C07", "c07-subms-unrounded", "ttconv/vtt/writer.py", '    if end is not None and round(end, 3) <= round(begin, 3):\n', '    if end is not None and end <= begin:\n', "RAISE-interval")
+brk("C18", "c18-subms-guard-log-only", "ttconv/srt/writer.py", '    if end is not None and round(end, 3) <= round(begin, 3):\n      # time codes have millisecond resolution: the cue would begin and end on the same time code\n      LOGGER.debug("Skipping an interval shorter than one millisecond.")\n      return\n', '    if end is not None and round(end, 3) <= round(begin, 3):\n      LOGGER.debug("Interval shorter than one millisecond.")\n', "RAISE-interval")
+ben("C07", "c07-benign-subms-nested", "ttconv/srt/writer.py", '    if end is not None and round(end, 3) <= round(begin, 3):\n', '    if end is not None:\n     if not round(end, 3) > round(begin, 3):\n')
+ben("C18", "c18-benign-subms-flipped", "ttconv/vtt/writer.py", '    if end is not None and round(end, 3) <= round(begin, 3):\n', '    if end is not None and round(begin, 3) >= round(end, 3):\n')
 VARIANTS = V
